@@ -6,6 +6,8 @@ MCRole == [n \in MCNodes |-> "acceptor"]
 MCOther == [n \in MCNodes |-> "A"]
 MCUserOps == [n \in MCNodes |-> {"abort", "release"}]
 MCPolicy == [n \in MCNodes |-> {"accept", "reject"}]
+MCHandlerAbort == [n \in MCNodes |-> {FALSE, TRUE}]
+MCKnown == {}
 MCFrames == {"RQ", "RQBADPV", "AC", "PD_REQ", "PD_BADMSG", "RELRQ", "RELRP", "ABORT0", "BADTYPE"}
 \* hide the history variables
 View == <<[n \in Nodes |-> [nd[n] EXCEPT !.sent = <<>>, !.fired = <<>>]], wire, weof, npeer, ntick>>
